@@ -44,7 +44,7 @@ enum { K_MKSTEMP = 0, K_FTRUNCATE = 1, K_MMAP = 2 };
 static int fine_kind;
 static int armed, call_index, n_injected, n_calls_seen;
 static int plan_type, plan_a, plan_b;      /* 0 none, 1 single a, 2 pair a b, 3 kind a, 4 from a on */
-static char created[64][300]; static int n_created;
+static char created[3000][80]; static int n_created;      /* ORC_CODE=debug keeps its temporary files: removed at the end of the case */
 
 static int should_fail (int kind)
 {
@@ -75,7 +75,7 @@ int __wrap_mkstemp64 (char *tmpl)
   fine_kind = 0;
   if (should_fail (K_MKSTEMP)) { n_injected++; errno = EACCES; return -1; }
   fd = __real_mkstemp64 (tmpl);
-  if (fd >= 0 && n_created < 64) snprintf (created[n_created++], sizeof created[0], "%s", tmpl);
+  if (fd >= 0 && n_created < 3000 && strlen (tmpl) < 80) snprintf (created[n_created++], sizeof created[0], "%s", tmpl);
   return fd;
 }
 int __wrap_ftruncate64 (int fd, off_t len);
